@@ -87,6 +87,7 @@ def gen_cases(tier):
             cases.append({"sel": s, "voff": 3, "kcase": "upper", "ctx": "between"})
             cases.append({"sel": s, "voff": 3, "kcase": "upper", "ctx": "between-nosemi"})
             cases.append({"sel": s, "voff": 6, "kcase": "lower", "ctx": "between-nosemi"})
+            cases.append({"sel": s, "voff": 5, "kcase": "upper", "ctx": "last-after-nosemi"})
             cases.append({"sel": s, "voff": 5, "kcase": "mixed", "ctx": "noschema"})
             cases.append({"sel": s, "voff": 2, "kcase": "upper", "ctx": "twoseq"})
         elif len(s) == 3:
@@ -117,7 +118,10 @@ def build(case):
     st = (head + " " + (schema + "." if schema else "") + qname + " " + " ".join(parts)).rstrip() + ";"
     if case.get("lines"):
         st = st.replace(" ", "\n")
-    if case["ctx"] == "between-nosemi":
+    if case["ctx"] == "last-after-nosemi":
+        # the ';'-terminated sequence statement is the LAST line and follows a statement that has no ';'
+        ddl = TAB_BEFORE.rstrip(";") + "\n" + st
+    elif case["ctx"] == "between-nosemi":
         # the same three statements without ';' terminators: each one is ended by the start of the next
         ddl = "\n".join(x.rstrip(";") for x in (TAB_BEFORE, st, TAB_AFTER))
     elif case["ctx"] == "between":
@@ -162,6 +166,12 @@ def evaluate(case):
         if case["ctx"] in ("alone", "noschema"):
             if not same_seq(res, [exp]):
                 diffs.append(diff("sequence entity", "sequence-differs", exp, short(res)))
+        elif case["ctx"] == "last-after-nosemi":
+            ref_b = run_ddl(TAB_BEFORE)[1]
+            if len(res) != 2 or not same_seq([res[1]], [exp]):
+                diffs.append(diff("sequence entity (last line, after a statement without ';')", "sequence-differs", exp, short(res[1:2] or res)))
+            if len(res) == 2 and res[0] != ref_b[0]:
+                diffs.append(diff("neighbouring table", "neighbour-changed", short(ref_b[0]), short(res[0])))
         elif case["ctx"] == "then-alter":
             ref = run_ddl(TAB_BEFORE + "\n" + ALTER_AFTER)[1]
             if len(res) != 2 or not same_seq([res[1]], [exp]):
